@@ -932,6 +932,29 @@ func main() {
 			})
 		}
 		def("tls_broker_serves_with_tls", "bool", coqBool(brokerTLS), "grpc_broker.go AcceptAndServe: brokered servers get credentials.NewTLS(b.tls)")
+		// every certificate pool of the package starts empty: x509.NewCertPool() is used and x509.SystemCertPool() is not
+		usesNew, usesSystem := false, false
+		ents, _ := os.ReadDir(*repo)
+		for _, e := range ents {
+			n := e.Name()
+			if e.IsDir() || !strings.HasSuffix(n, ".go") || strings.HasSuffix(n, "_test.go") {
+				continue
+			}
+			if f := load(*repo, n); f != nil {
+				ast.Inspect(f, func(nd ast.Node) bool {
+					if ce, ok := nd.(*ast.CallExpr); ok {
+						switch exprString(ce.Fun) {
+						case "x509.NewCertPool":
+							usesNew = true
+						case "x509.SystemCertPool":
+							usesSystem = true
+						}
+					}
+					return true
+				})
+			}
+		}
+		def("tls_pools_only_pinned", "bool", coqBool(usesNew && !usesSystem), "all non-test files of the package: certificate pools come from x509.NewCertPool(), never from x509.SystemCertPool()")
 	}
 
 	// ---- GRPCClient.Close: is the Shutdown request bounded by context.WithTimeout(..., k*time.Second)?
@@ -1210,6 +1233,46 @@ func main() {
 			atomicIDs = atomicIDs && ok
 		}
 		def("nextid_atomic", "bool", coqBool(atomicIDs), "mux_broker.go / grpc_broker.go NextId: the whole body is `return atomic.AddUint32(&m.nextId, 1)`")
+		// the broker streams' Send hands a reply channel to the stream goroutine and closes it when it returns (defer close(ch)):
+		// it must return only by receiving the reply, or the stream goroutine's reply is a send on a closed channel
+		waits := true
+		for _, k := range []string{"gRPCBrokerServer.Send", "gRPCBrokerClientImpl.Send"} {
+			fd := la.funcs[k]
+			if fd == nil {
+				fail("%s not found", k)
+				continue
+			}
+			hasDeferClose, lastIsRecv, otherReturnAfterHandOff := false, false, false
+			handedOff := false
+			for i, st := range fd.Body.List {
+				if ds, ok := st.(*ast.DeferStmt); ok && exprString(ds.Call) == "close(ch)" {
+					hasDeferClose = true
+				}
+				if ss, ok := st.(*ast.SelectStmt); ok {
+					// the hand-off select: one arm sends on s.send; or a later select that can return without the reply
+					sends := false
+					for _, c := range ss.Body.List {
+						cc := c.(*ast.CommClause)
+						if snd, ok := cc.Comm.(*ast.SendStmt); ok && exprString(snd.Chan) == "s.send" {
+							sends = true
+						}
+					}
+					if sends {
+						handedOff = true
+					} else if handedOff {
+						otherReturnAfterHandOff = true
+					}
+				}
+				if rs, ok := st.(*ast.ReturnStmt); ok && i == len(fd.Body.List)-1 && len(rs.Results) == 1 && exprString(rs.Results[0]) == "<-ch" {
+					lastIsRecv = true
+				}
+			}
+			if !hasDeferClose {
+				fail("%s: defer close(ch) not found (the reply-channel discipline changed shape)", k)
+			}
+			waits = waits && lastIsRecv && !otherReturnAfterHandOff
+		}
+		def("broker_send_waits_reply", "bool", coqBool(waits), "grpc_broker.go gRPCBrokerServer.Send / gRPCBrokerClientImpl.Send: after handing the request over, the only way out is `return <-ch`")
 	}
 
 	// ---- output
